@@ -1,5 +1,6 @@
 (* C19 — unsorted `fst set` / `fst map` builds are independent of batching, fd limit, threads and
-   worker scheduling.  Statements only; proofs live in proofs/MergeProofs.v.
+   worker scheduling.  Statements only; proofs live in proofs/MergeProofs.v (contents) and
+   proofs/MergeBytes.v (bytes of the output file, through the builder / format / reader theorems).
 
    Reading guide: [merge_all mg o bs fd threads input] is the model of Merger::merge
    (fst-bin/src/merge.rs) on the parsed rows [input]; the oracle [o] fixes, for every generation,
@@ -9,6 +10,8 @@
    given for it.  Real thread interleavings are not modelled: their only effect on the data flow
    is the collection order, which the oracle over-approximates. *)
 Require Import FstV.Base FstV.Merge FstV.proofs.MergeProofs.
+Require Import FstV.Builder FstV.Format FstV.CodecSpec FstV.Fst FstV.Crc FstV.Open.
+Require Import FstV.proofs.BuilderInv FstV.proofs.Closed FstV.proofs.BuiltVerifies FstV.proofs.MergeBytes.
 From Coq Require Import Permutation.
 
 (* the mergers of the CLI satisfy the side condition; sum is u64 wrapping addition *)
@@ -91,12 +94,211 @@ Qed.
 
 (* inputs without repeated keys: the result is the input sorted by key, and the sorted-mode build
    (duplicates and disorder are errors there) of that sorted input has the same content; identity
-   of the bytes then is determinism of the builder, which the differential run checks *)
+   of the bytes is C19_bytes_identical_to_sorted_build below *)
 Theorem C19_no_repeats_is_sorted_build : forall mg input,
   merger_ok mg input -> NoDup (keys_of input) ->
   spec_merge mg input = kv_sort input /\
   builder_go false None (kv_sort input) = Ok (kv_sort input).
 Proof. exact spec_no_repeats. Qed.
+
+(* ---------- the bytes of the output file ----------
+   Every FST file merge.rs writes, the final one included, comes from a raw::Builder (fst type 0)
+   that is given insert(key, value) for the pairs of the content in ascending order and then
+   finish(); [build_map summer 0 rows cols content] is the model of exactly that (Builder.v), with
+   the checksum function and the node-cache geometry as parameters.
+   [rows_ok]: keys are byte strings and values are u64 (what the parsers can deliver);
+   [merger_closed]: the merger maps u64 x u64 into u64 (it is a Rust Fn(u64, u64) -> u64);
+   [size_ok]: the budget NODE_MAX * (1 + total bytes of the distinct keys) + 100 < 2^64 that keeps
+   the file below 2^64 bytes (C19_size_budget_on_rows: the same budget on all rows is enough). *)
+Theorem C19_cli_mergers_closed :
+  merger_closed mg_sum /\ merger_closed mg_max /\ merger_closed mg_min /\ merger_closed mg_set.
+Proof. exact (conj sum_closed (conj max_closed (conj min_closed set_closed))). Qed.
+
+Theorem C19_size_budget_on_rows : forall mg input,
+  size_ok_keys (keys_of input) -> size_ok (spec_merge mg input).
+Proof. exact size_ok_rows. Qed.
+
+(* maps: for every schedule, batch size, fd limit >= 2, thread count >= 1, every checksum function
+   into u32 and every cache geometry, the pipeline returns the specified content, the builder
+   writes a file for it, the format specification reads that file back as (version 3, type 0, the
+   content), the reader model streams the content and answers every get / contains probe from it;
+   with the real checksum the model of Fst::new opens the file and the model of Fst::verify accepts
+   it; the content has exactly the distinct input keys, each with the merge of all its values *)
+Theorem C19_output_file : forall mg o bs fd threads input summer rows cols,
+  merger_ok mg input -> merger_closed mg -> oracle_ok o -> 2 <= fd -> 1 <= threads ->
+  rows_ok input -> size_ok (spec_merge mg input) -> (forall l, summer l < 4294967296) ->
+  let content := spec_merge mg input in
+  merge_all mg o bs fd threads input = Returns (Ok content) /\
+  (exists file, build_map summer 0 rows cols content = Ok file /\
+     spec_read file = Some (3, 0, content) /\
+     api_stream file = Ok content /\ api_len file = len content /\
+     (forall k, Forall (fun b => b < 256) k ->
+        api_get file k = Ok (lookup content k) /\
+        api_contains file k = Ok (match lookup content k with Some _ => true | None => false end))) /\
+  (exists file m, build_map model_masked_crc32c 0 rows cols content = Ok file /\
+     fst_new file = Ok m /\ verify file m = Ok tt /\
+     Open.m_len m = len content /\ Open.m_ty m = 0 /\ Open.m_version m = 3 /\
+     spec_read file = Some (3, 0, content) /\ api_stream file = Ok content) /\
+  kmap_ok content = true /\
+  (forall k, In k (keys_of content) <-> In k (keys_of input)) /\
+  (forall k, In k (keys_of input) -> lookup content k = Some (merge_outputs mg (values_in k input))) /\
+  (forall k, ~ In k (keys_of input) -> lookup content k = None).
+Proof. exact merge_output_file. Qed.
+
+(* the three mergers of `fst map` (--sum wrapping, --max, --min) satisfy both side conditions *)
+Theorem C19_output_file_cli_mergers : forall mg, mg = mg_sum \/ mg = mg_max \/ mg = mg_min ->
+  forall input, merger_ok mg input /\ merger_closed mg.
+Proof. exact cli_mergers_ok. Qed.
+
+(* sets: [set_rows lines] is `(line, 0)` of cmd/set.rs.  The file the merger writes with
+   raw::Builder::insert(key, 0) is byte for byte the file a SetBuilder writes for the distinct
+   lines in ascending order; contains answers membership in the input lines *)
+Theorem C19_output_file_set : forall o bs fd threads lines summer rows cols,
+  oracle_ok o -> 2 <= fd -> 1 <= threads ->
+  Forall (Forall (fun b => b < 256)) lines -> size_ok_keys (key_set lines) ->
+  (forall l, summer l < 4294967296) ->
+  let distinct := key_set lines in
+  let content := map (fun k => (k, 0)) distinct in
+  merge_all mg_set o bs fd threads (set_rows lines) = Returns (Ok content) /\
+  (exists file, build_map summer 0 rows cols content = Ok file /\
+     build_set summer 0 rows cols distinct = Ok file /\
+     spec_read file = Some (3, 0, content) /\
+     api_stream file = Ok content /\ api_len file = len distinct /\
+     (forall k, Forall (fun b => b < 256) k ->
+        api_contains file k = Ok (existsb (key_eqb k) lines))) /\
+  (exists file m, build_map model_masked_crc32c 0 rows cols content = Ok file /\
+     build_set model_masked_crc32c 0 rows cols distinct = Ok file /\
+     fst_new file = Ok m /\ verify file m = Ok tt /\
+     Open.m_len m = len distinct /\ Open.m_ty m = 0 /\ Open.m_version m = 3 /\
+     spec_read file = Some (3, 0, content) /\ api_stream file = Ok content) /\
+  sorted_strict distinct = true /\ (forall k, In k distinct <-> In k lines).
+Proof. exact merge_output_file_set. Qed.
+
+(* inputs without repeated keys: for every schedule, batch size, fd limit, thread count, checksum
+   function and cache geometry the bytes the unsorted pipeline writes are the bytes of a sorted-mode
+   build of the sorted rows, and the sorted-mode builder accepts those rows.  No size or range
+   condition: if one build fails, the other fails the same way *)
+Theorem C19_bytes_identical_to_sorted_build : forall mg o bs fd threads input summer rows cols,
+  merger_ok mg input -> oracle_ok o -> 2 <= fd -> 1 <= threads -> NoDup (keys_of input) ->
+  exists m,
+    merge_all mg o bs fd threads input = Returns (Ok m) /\
+    builder_go false None (kv_sort input) = Ok (kv_sort input) /\
+    Permutation input (kv_sort input) /\
+    build_map summer 0 rows cols m = build_map summer 0 rows cols (kv_sort input).
+Proof. exact merge_bytes_eq_sorted_build. Qed.
+
+(* ... and within the range and size conditions both are one file, which opens, verifies and
+   streams the sorted rows *)
+Theorem C19_file_identical_to_sorted_build : forall mg o bs fd threads input rows cols,
+  merger_ok mg input -> merger_closed mg -> oracle_ok o -> 2 <= fd -> 1 <= threads ->
+  NoDup (keys_of input) -> rows_ok input -> size_ok_keys (keys_of input) ->
+  exists m file meta,
+    merge_all mg o bs fd threads input = Returns (Ok m) /\
+    builder_go false None (kv_sort input) = Ok (kv_sort input) /\
+    build_map model_masked_crc32c 0 rows cols m = Ok file /\
+    build_map model_masked_crc32c 0 rows cols (kv_sort input) = Ok file /\
+    fst_new file = Ok meta /\ verify file meta = Ok tt /\
+    api_stream file = Ok (kv_sort input) /\ Open.m_len meta = len input.
+Proof. exact merge_file_eq_sorted_build. Qed.
+
+(* sets without repeated lines: the bytes of the sorted-mode SetBuilder over the sorted lines *)
+Theorem C19_set_bytes_identical_to_sorted_build : forall o bs fd threads lines summer rows cols,
+  oracle_ok o -> 2 <= fd -> 1 <= threads -> NoDup lines ->
+  exists m,
+    merge_all mg_set o bs fd threads (set_rows lines) = Returns (Ok m) /\
+    Permutation lines (key_set lines) /\ sorted_strict (key_set lines) = true /\
+    build_map summer 0 rows cols m = build_set summer 0 rows cols (key_set lines).
+Proof. exact merge_set_bytes_eq_sorted_build. Qed.
+
+(* non-vacuity of C19_output_file: `--sum` over rows with the key "b" three times (inside one
+   batch and across batches; the sum wraps: 2 + 5 + (2^64 - 1) = 6 mod 2^64), batch size 2, fd
+   limit 2, 3 threads, a schedule that reverses the first round; the hypotheses hold, and the 45
+   bytes (real checksum, 2 x 2 node cache) are read back, opened and verified.  They are the bytes
+   `fst map --batch-size 2 --fd-limit 2 --threads 3` wrote for the rows b,2 a,1 b,5 "",4 b,2^64-1 *)
+Definition C19_rows : list kv := [([98], 2); ([97], 1); ([98], 5); ([], 4); ([98], 18446744073709551615)].
+Definition C19_file : list N :=
+  [3; 0; 0; 0; 0; 0; 0; 0; 0; 0; 0; 0; 0; 0; 0; 0; 4; 6; 1; 0; 0; 98; 97; 17; 66;
+   3; 0; 0; 0; 0; 0; 0; 0; 24; 0; 0; 0; 0; 0; 0; 0; 203; 195; 236; 26].
+Example C19_output_file_nonvacuous :
+  let o := oracle_of [[2; 1]; [1]; []] true in
+  let content := [([], 4); ([97], 1); ([98], 6)] in
+  merger_ok mg_sum C19_rows /\ merger_closed mg_sum /\ oracle_ok o /\ rows_ok C19_rows /\
+  size_ok (spec_merge mg_sum C19_rows) /\ ~ NoDup (keys_of C19_rows) /\
+  merge_all mg_sum o 2 2 3 C19_rows = Returns (Ok content) /\
+  build_map model_masked_crc32c 0 2 2 content = Ok C19_file /\
+  spec_read C19_file = Some (3, 0, content) /\ api_stream C19_file = Ok content /\
+  api_get C19_file [98] = Ok (Some 6) /\
+  (exists m, fst_new C19_file = Ok m /\ verify C19_file m = Ok tt) /\
+  (* the same bytes up to the checksum with a trivial checksum function *)
+  build_map (fun _ => 0) 0 2 2 content = Ok (firstn 41 C19_file ++ [0; 0; 0; 0]).
+Proof.
+  cbv zeta. split; [apply sum_ac|]. split; [apply sum_closed|]. split; [apply oracle_of_ok|].
+  split; [unfold rows_ok, C19_rows; repeat constructor|].
+  split; [vm_compute; reflexivity|].
+  split; [intro H; inversion H as [|? ? Hn _]; apply Hn; cbn; auto|].
+  split; [vm_compute; reflexivity|]. split; [vm_compute; reflexivity|].
+  split; [vm_compute; reflexivity|]. split; [vm_compute; reflexivity|].
+  split; [vm_compute; reflexivity|].
+  split; [eexists; split; vm_compute; reflexivity|]. vm_compute; reflexivity.
+Qed.
+
+(* non-vacuity of C19_output_file_set: the line "b" twice (batch size 2, fd limit 2, 3 threads).
+   The 46 bytes are the bytes `fst set --batch-size 2 --fd-limit 2 --threads 3` wrote for the lines
+   b, a, b, ab *)
+Definition C19_lines : list key := [[98]; [97]; [98]; [97; 98]].
+Definition C19_set_file : list N :=
+  [3; 0; 0; 0; 0; 0; 0; 0; 0; 0; 0; 0; 0; 0; 0; 0; 0; 98; 16; 65; 0; 1; 98; 97; 16; 2;
+   3; 0; 0; 0; 0; 0; 0; 0; 25; 0; 0; 0; 0; 0; 0; 0; 209; 251; 28; 184].
+Example C19_output_file_set_nonvacuous :
+  let o := oracle_of [[2; 1]; [1]; []] true in
+  let distinct := [[97]; [97; 98]; [98]] in
+  let content := [([97], 0); ([97; 98], 0); ([98], 0)] in
+  oracle_ok o /\ Forall (Forall (fun b => b < 256)) C19_lines /\ size_ok_keys (key_set C19_lines) /\
+  ~ NoDup C19_lines /\ key_set C19_lines = distinct /\
+  merge_all mg_set o 2 2 3 (set_rows C19_lines) = Returns (Ok content) /\
+  build_map model_masked_crc32c 0 2 2 content = Ok C19_set_file /\
+  build_set model_masked_crc32c 0 2 2 distinct = Ok C19_set_file /\
+  spec_read C19_set_file = Some (3, 0, content) /\ api_stream C19_set_file = Ok content /\
+  api_contains C19_set_file [98] = Ok true /\ api_contains C19_set_file [99] = Ok false /\
+  (exists m, fst_new C19_set_file = Ok m /\ verify C19_set_file m = Ok tt).
+Proof.
+  cbv zeta. split; [apply oracle_of_ok|].
+  split; [unfold C19_lines; repeat constructor|].
+  split; [vm_compute; reflexivity|].
+  split; [intro H; inversion H as [|? ? Hn _]; apply Hn; cbn; auto|].
+  split; [vm_compute; reflexivity|]. split; [vm_compute; reflexivity|].
+  split; [vm_compute; reflexivity|]. split; [vm_compute; reflexivity|].
+  split; [vm_compute; reflexivity|]. split; [vm_compute; reflexivity|].
+  split; [vm_compute; reflexivity|]. split; [vm_compute; reflexivity|].
+  eexists; split; vm_compute; reflexivity.
+Qed.
+
+(* non-vacuity of C19_bytes_identical_to_sorted_build: four distinct keys out of order, batch size
+   1 (four initial FSTs, two union generations); the 53 bytes of the unsorted pipeline are the 53
+   bytes of the sorted build (and of `fst map --max --batch-size 1 --fd-limit 2 --threads 3` and
+   `fst map --sorted` on these rows); with a repeated key the hypothesis fails and so does the
+   sorted build *)
+Definition C19_rows_distinct : list kv := [([98], 2); ([97], 1); ([], 4); ([97; 98], 300)].
+Definition C19_sorted_file : list N :=
+  [3; 0; 0; 0; 0; 0; 0; 0; 0; 0; 0; 0; 0; 0; 0; 0; 0; 0; 43; 1; 0; 98; 18; 65; 4; 2; 1; 0; 1;
+   98; 97; 17; 66; 4; 0; 0; 0; 0; 0; 0; 0; 32; 0; 0; 0; 0; 0; 0; 0; 184; 98; 43; 33].
+Example C19_bytes_identical_nonvacuous :
+  let o := oracle_of [[3; 1; 1]; [1]; []] true in
+  let sorted := [([], 4); ([97], 1); ([97; 98], 300); ([98], 2)] in
+  merger_ok mg_max C19_rows_distinct /\ oracle_ok o /\ NoDup (keys_of C19_rows_distinct) /\
+  kv_sort C19_rows_distinct = sorted /\
+  merge_all mg_max o 1 2 3 C19_rows_distinct = Returns (Ok sorted) /\
+  builder_go false None sorted = Ok sorted /\
+  build_map model_masked_crc32c 0 2 2 sorted = Ok C19_sorted_file /\
+  (exists m, fst_new C19_sorted_file = Ok m /\ verify C19_sorted_file m = Ok tt) /\
+  builder_go false None (kv_sort C19_rows) = Err (EDuplicateKey [98]).
+Proof.
+  cbv zeta. split; [apply max_ac|]. split; [apply oracle_of_ok|].
+  split; [unfold C19_rows_distinct; cbn; repeat constructor; cbn; intuition discriminate|].
+  split; [vm_compute; reflexivity|]. split; [vm_compute; reflexivity|].
+  split; [vm_compute; reflexivity|]. split; [vm_compute; reflexivity|].
+  split; [eexists; split; vm_compute; reflexivity|]. vm_compute; reflexivity.
+Qed.
 
 (* outside the contract: fd limit 0 or 1 with at least two initial batches never finishes,
    whatever the fuel; no worker at all panics *)
@@ -167,3 +369,40 @@ Print Assumptions C19_codes_reach_every_permutation.
 Print Assumptions C19_union_outputs_nonempty.
 Print Assumptions C19_nonvacuous.
 Print Assumptions C19_old_fold_from_zero_is_wrong.
+Check C19_output_file : forall mg o bs fd threads input summer rows cols,
+  merger_ok mg input -> merger_closed mg -> oracle_ok o -> 2 <= fd -> 1 <= threads ->
+  rows_ok input -> size_ok (spec_merge mg input) -> (forall l, summer l < 4294967296) ->
+  let content := spec_merge mg input in
+  merge_all mg o bs fd threads input = Returns (Ok content) /\
+  (exists file, build_map summer 0 rows cols content = Ok file /\
+     spec_read file = Some (3, 0, content) /\
+     api_stream file = Ok content /\ api_len file = len content /\
+     (forall k, Forall (fun b => b < 256) k ->
+        api_get file k = Ok (lookup content k) /\
+        api_contains file k = Ok (match lookup content k with Some _ => true | None => false end))) /\
+  (exists file m, build_map model_masked_crc32c 0 rows cols content = Ok file /\
+     fst_new file = Ok m /\ verify file m = Ok tt /\
+     Open.m_len m = len content /\ Open.m_ty m = 0 /\ Open.m_version m = 3 /\
+     spec_read file = Some (3, 0, content) /\ api_stream file = Ok content) /\
+  kmap_ok content = true /\
+  (forall k, In k (keys_of content) <-> In k (keys_of input)) /\
+  (forall k, In k (keys_of input) -> lookup content k = Some (merge_outputs mg (values_in k input))) /\
+  (forall k, ~ In k (keys_of input) -> lookup content k = None).
+Check C19_bytes_identical_to_sorted_build : forall mg o bs fd threads input summer rows cols,
+  merger_ok mg input -> oracle_ok o -> 2 <= fd -> 1 <= threads -> NoDup (keys_of input) ->
+  exists m,
+    merge_all mg o bs fd threads input = Returns (Ok m) /\
+    builder_go false None (kv_sort input) = Ok (kv_sort input) /\
+    Permutation input (kv_sort input) /\
+    build_map summer 0 rows cols m = build_map summer 0 rows cols (kv_sort input).
+Print Assumptions C19_cli_mergers_closed.
+Print Assumptions C19_size_budget_on_rows.
+Print Assumptions C19_output_file.
+Print Assumptions C19_output_file_cli_mergers.
+Print Assumptions C19_output_file_set.
+Print Assumptions C19_bytes_identical_to_sorted_build.
+Print Assumptions C19_file_identical_to_sorted_build.
+Print Assumptions C19_set_bytes_identical_to_sorted_build.
+Print Assumptions C19_output_file_nonvacuous.
+Print Assumptions C19_output_file_set_nonvacuous.
+Print Assumptions C19_bytes_identical_nonvacuous.
